@@ -32,7 +32,7 @@ PROPS["C05"] = dict(
 )
 PROPS["C18"] = dict(
     level="proof",
-    modules=["contracts.c_var_int", "contracts.c_tx", "contracts.c_fee", "contracts.c_dsa_der"],
+    modules=["contracts.c_var_int", "contracts.c_tx", "contracts.c_fee", "contracts.c_dsa_der", "contracts.c_pipeline"],
     not_decided=["PSBT weight estimate vs signed weight; Decimal conversions"],
     assumptions=[],
     bounded=[],
